@@ -123,11 +123,36 @@ theorem code_lt (isM : Bool) (t p : Nat) (h : InDomain t p) : code isM t p < 2 ^
   obtain ⟨h1, h2, h3⟩ := h
   unfold code; cases isM <;> simp <;> omega
 
+theorem idName_render (isM : Bool) (t p : Nat) : idName (render isM t p) = render isM t p := by
+  rw [render_eq]; unfold idName isDeleted body
+  cases isM <;> simp
+
+/-- the safe-delete mark: the first two bytes of the name become ".d" (cmsys.DeleteRecord). -/
+def markDeleted (f : List Nat) : List Nat := [46, 100] ++ f.drop 2
+
+/-- a delete-marked entry is encoded under its original (type M) name, so its id still designates
+the index entry with that time and suffix (what the paging cursor relies on). -/
+theorem idName_deleted (isM : Bool) (t p : Nat) :
+    idName (markDeleted (render isM t p)) = render true t p := by
+  have hl : (body 77 t p).length = 18 := by simp [body, digitsFixed_length, hex3]
+  have hF : FNLEN = 28 := by decide +kernel
+  rw [render_eq, render_eq]
+  unfold idName isDeleted markDeleted body
+  rw [hF]
+  cases isM <;>
+  · simp [copyInto, digitsFixed_length, hex3]
+    apply List.take_of_length_le
+    simp [digitsFixed_length]
+
+theorem toArticleID_deleted (isM : Bool) (t p : Nat) :
+    toArticleID (markDeleted (render isM t p)) = toArticleID (render true t p) := by
+  unfold toArticleID; rw [idName_deleted, idName_render]
+
 /-- the 8-character id shown to clients designates the one article it was produced from. -/
 theorem articleId_roundtrip (isM : Bool) (t p : Nat) (h : InDomain t p) :
     articleIDToRaw (toArticleID (render isM t p)) = .ok (render isM t p) := by
   unfold toArticleID articleIDToRaw
-  rw [fnToAidu_render isM t p h]
+  rw [idName_render, fnToAidu_render isM t p h]
   have hnz : ∀ c ∈ aiduToAidc (code isM t p), c ≠ 0 :=
     toAidcAux_nonzero 8 _ [] (by simp)
   rw [cstr_of_nonzero _ hnz]
@@ -140,6 +165,7 @@ theorem articleId_roundtrip (isM : Bool) (t p : Nat) (h : InDomain t p) :
 theorem articleId_length (isM : Bool) (t p : Nat) :
     (toArticleID (render isM t p)).length = 8 := by
   unfold toArticleID
+  rw [idName_render]
   have hnz : ∀ c ∈ aiduToAidc (fnToAidu (render isM t p)), c ≠ 0 :=
     toAidcAux_nonzero 8 _ [] (by simp)
   rw [cstr_of_nonzero _ hnz]
